@@ -143,6 +143,24 @@ def run(ctx):
                 a, b, c = fam(ia, ha, cs), fam(ib, hb, cs), fam(ic, hc_, cs)
                 add('using_term_info', '(fdcomm_zero %s %s %s)' % (coq_fop(a), coq_fop(b), coq_fop(c)),
                     {'call': 'trivially_double_commutes_dual_basis_using_term_info', 'indices': [ia, ib, ic], 'hopping': [ha, hb, hc_], 'jellium_only': jell}, key=(ia, ib, ic, ha, hb, hc_, jell))
+    # the same with the single-mode potential terms c_i n_i (index set {i}) that simulation_ordered_grouped_low_depth_terms_with_info
+    # (external_potential_at_end=True) hands to the predicate; every triple containing at least one of them
+    n1 = 3 if ctx.quick else 4
+    sets1 = [(i, j) for i, j in itertools.combinations(range(n1), 2)] + [(i,) for i in range(n1)]
+    def fam1(idx, hop, cs, jell):
+        if len(idx) == 2: return fam(idx, hop, cs)
+        return F(((idx[0], 1), (idx[0], 0)), cs[0] if jell else (0.5 + idx[0]))
+    for ia, ib, ic in itertools.product(sets1, repeat=3):
+        if min(len(ia), len(ib), len(ic)) == 2: continue
+        for ha, hb, hc_ in itertools.product([True, False], repeat=3):
+            if (ha and len(ia) == 1) or (hb and len(ib) == 1) or (hc_ and len(ic) == 1): continue
+            for jell in (True, False):
+                cs = (0.5, 0.5) if jell else (0.5, -1.5)
+                v = trivially_double_commutes_dual_basis_using_term_info(set(ia), set(ib), set(ic), ha, hb, hc_, jell)
+                if not v: ctx.count('using_term_info', 1); continue
+                a, b, c = fam1(ia, ha, cs, jell), fam1(ib, hb, cs, jell), fam1(ic, hc_, cs, jell)
+                add('using_term_info', '(fdcomm_zero %s %s %s)' % (coq_fop(a), coq_fop(b), coq_fop(c)),
+                    {'call': 'trivially_double_commutes_dual_basis_using_term_info', 'indices': [ia, ib, ic], 'hopping': [ha, hb, hc_], 'jellium_only': jell}, key=(ia, ib, ic, ha, hb, hc_, jell))
     # ---- diagonal-Coulomb commutator
     for i in range(N(100, 1000)):
         nm = rng.choice([2, 3, 4])
